@@ -171,6 +171,57 @@ inline std::string attribution_error(Model const& m, Issued const& is, int sink,
   return {};
 }
 
+// Reach measure for the backend's buffering limits (no hook in quill tells us directly): the largest number of statements
+// of one thread that were accepted (log call returned) but not yet written to their first sink at some instant. A backlog
+// beyond the hard limit means the limit was binding (the backend stopped reading that thread's queue with more in it);
+// beyond the initial transit capacity (and within the hard limit) that the transit buffer had to grow.
+inline void backlog_probes(Model const& m, Plan const& p, Verdict& v)
+{
+  struct E
+  {
+    uint64_t seq;
+    int thread;
+    int d;
+  };
+  std::vector<E> ev;
+  std::map<int64_t, uint64_t> first_write;
+  for (auto const& ws : m.by_sink)
+  {
+    for (auto const& w : ws)
+    {
+      auto it = first_write.find(w.id);
+      if (w.id >= 0 && (it == first_write.end() || w.seq < it->second))
+      {
+        first_write[w.id] = w.seq;
+      }
+    }
+  }
+  for (auto const& kv : m.issued)
+  {
+    Issued const& is = kv.second;
+    auto fw = first_write.find(is.id);
+    if (is.result != 1 || is.kind == 1 || fw == first_write.end())
+    {
+      continue;
+    }
+    ev.push_back(E{is.return_seq, is.thread, +1});
+    ev.push_back(E{fw->second, is.thread, -1});
+  }
+  std::sort(ev.begin(), ev.end(), [](E const& a, E const& b) { return a.seq < b.seq; });
+  std::map<int, int64_t> cur;
+  int64_t mx = 0;
+  for (auto const& e : ev)
+  {
+    int64_t& c = cur[e.thread];
+    c += e.d;
+    mx = std::max(mx, c);
+  }
+  int64_t const hard = p.get("hard", 1 << 30), tcap = p.get("transit_cap", 1 << 30), soft = p.get("soft", 1 << 30);
+  v.probes["runs_with_thread_backlog_beyond_hard_limit"] = mx > hard ? 1 : 0;
+  v.probes["runs_with_thread_backlog_beyond_soft_limit"] = mx > soft ? 1 : 0;
+  v.probes["runs_with_thread_backlog_beyond_initial_transit_capacity"] = mx > tcap ? 1 : 0;
+}
+
 // returns OK or the first violation found
 inline Verdict check_delivery(Model const& m, DeliveryRules const& rules)
 {
